@@ -53,7 +53,10 @@ struct Config {
   uint64_t maxExec = 0;   // 0 = no cap
   int rootStride = 1, rootOffset = 0;  // partition of the root's alternatives across cases
   bool useTbb = true;
-  bool captureStderr = false;  // keep the child's stderr (sanitizer reports) in Exec::stderrText
+  bool captureStderr = false;
+  // run executions inside the calling process (no fork): needed under TSan, whose fork is very slow.  State that
+  // survives an execution (caches, ID counters) is brought to its steady state by one discarded warm-up run.
+  bool inProcess = false;  // keep the child's stderr (sanitizer reports) in Exec::stderrText
 };
 
 struct Stats {
@@ -81,6 +84,35 @@ class Explorer {
     memset(sh_->user, 0, sizeof sh_->user);
     sh_->outcome[0] = 0;
     sh_->note[0] = 0;
+    if (cfg.inProcess) {
+      if (cfg.useTbb) {
+        tbbrt_reset();
+        tbbrt_config(cfg.workers, cfg.concurrency);
+      }
+      vs_begin(sh_);
+      std::string out = body();
+      if (cfg.useTbb) {
+        tbbrt_shutdown();
+        tbbrt_stats(&sh_->user[0], &sh_->user[1], &sh_->user[2]);
+      }
+      vs_end();
+      snprintf(sh_->outcome, VS_OUT_LEN, "%s", out.c_str());
+      Exec e;
+      e.status = sh_->status;
+      e.overflow = sh_->trace_overflow;
+      e.points = sh_->points;
+      e.tasks = sh_->user[0];
+      e.spawns = sh_->user[1];
+      e.steals = sh_->user[2];
+      e.races = sh_->user[3];
+      int n = sh_->trace_len;
+      e.trace.assign(sh_->trace, sh_->trace + n);
+      e.choices.resize(n);
+      for (int i = 0; i < n; ++i) e.choices[i] = sh_->trace[i].chosen;
+      e.outcome = sh_->outcome;
+      e.note = sh_->note;
+      return e;
+    }
     fflush(stdout);
     fflush(stderr);
     std::string errPath;
@@ -164,6 +196,7 @@ class Explorer {
     std::vector<Frame> stack;
     stack.push_back({{}});
     bool first = true;
+    if (cfg.inProcess) (void)run({}, cfg, body);  // warm-up: caches and lazily built globals reach their steady state
     while (!stack.empty()) {
       Frame f = std::move(stack.back());
       stack.pop_back();
